@@ -25,6 +25,7 @@ class SuiteSparseSolver:
         self.factorize = True
         self.new_A = False  # does not need to handle new A in suitesparse solvers
         self.use_linsolve = False
+        self._pattern = None  # sparsity pattern of the matrix used for `self.F`
 
     def clear(self):
         """
@@ -36,6 +37,15 @@ class SuiteSparseSolver:
         self.N = None   # numeric factorization
         self.factorize = True
         self.use_linsolve = False
+        self._pattern = None
+
+    @staticmethod
+    def _get_pattern(A):
+        """
+        Return a hashable description of the sparsity pattern of ``A``.
+        """
+        ccs = A.CCS
+        return A.size, bytes(ccs[0]), bytes(ccs[1])
 
     def _symbolic(self, A):
         """
@@ -117,8 +127,13 @@ class SuiteSparseSolver:
         self.A = A
         self.b = b
 
-        if self.factorize is True:
+        # a cached symbolic factorization is only valid for the same sparsity
+        # pattern; using it for another pattern can crash the C library
+        pattern = self._get_pattern(self.A)
+
+        if self.factorize is True or pattern != self._pattern:
             self.F = self._symbolic(self.A)
+            self._pattern = pattern
             self.factorize = False
 
         try:
@@ -195,6 +210,8 @@ class UMFPACKSolver(SuiteSparseSolver):
             umfpack.linsolve(A, b)
         except ArithmeticError:
             logger.error('Singular matrix. Case is not solvable')
+            # do not present the unchanged right-hand side as a solution
+            b[:] = np.nan
         return np.ravel(b)
 
 
@@ -220,4 +237,6 @@ class KLUSolver(SuiteSparseSolver):
             klu.linsolve(A, b)
         except ArithmeticError:
             logger.error('Singular matrix. Case is not solvable')
+            # do not present the unchanged right-hand side as a solution
+            b[:] = np.nan
         return np.ravel(b)
